@@ -13,9 +13,12 @@ package main
 //   line table: every line that is ever written (id = its "n" field, stream = its "stream" field)
 //   steps     C f      create file f (empty)                A f hex  append bytes to file f
 //             R f g    rename file f away, create g at its old path      T f   truncate f to 0
+//             RO f g   move file f out of the watched directory, create g at its old path
+//             O f      move file f out of the watched directory          D f   unlink f (a hard link outside the directory keeps it observable)
 //             U        start file.d (a child process)       X        the child kills itself (SIGKILL)
 //             W        wait until idle                      K n      ack+commit the n-th eligible event
 //             KA       ack+commit everything pending        S        wait until the offsets file is up to date
+//             KQ       ack+commit until every passed event has reached the output and is acked
 //   Steps between X and U (and before the first U) are executed by the parent: the system is down.
 //   The last run has no X: the child waits until idle and exits.
 //
@@ -23,10 +26,11 @@ package main
 //
 // result: the observed trace (records in the order the code serialised them), then the summary
 //   `lost <n> (<id> <cls>)…` — complete lines that are neither acked in any run nor handed to the
-//   output in the last run; cls 0 = the line's stream is absent from the saved offsets of its file at
-//   the last crash and the line ends at or before the minimum saved offset, 1 = anything else.
+//   output in the last run; cls 0 = at some crash the line's stream is absent from the saved offsets of its
+//   file and the line ends at or before the minimum saved offset, 1 = anything else.
 //
-// records: up | disc f | scan | new f | app f hex | ren f g | trunc f | in f off pass | out f off seq id |
+// records: up | disc f | scan | new f | app f hex | ren f g | trunc f | away f (f left the watched directory) |
+//   gone f (an away file has no job any more) | in f off pass | out f off seq id |
 //   ack f off id | com f off id | eof f size | idle | stuck | crash | saved f n (streamhex off)… | died
 
 import (
@@ -114,17 +118,17 @@ func parseC03(t *hx.Toks) (*c03Case, bool) {
 		op := t.Next()
 		s := c03Step{op: op}
 		switch op {
-		case "C", "T":
+		case "C", "T", "O", "D":
 			s.f = t.Int()
 		case "A":
 			s.f = t.Int()
 			s.data = t.Bytes()
-		case "R":
+		case "R", "RO":
 			s.f = t.Int()
 			s.g = t.Int()
 		case "K":
 			s.n = t.Int()
-		case "U", "X", "W", "KA", "S":
+		case "U", "X", "W", "KA", "KQ", "S":
 		default:
 			return nil, false
 		}
@@ -147,10 +151,23 @@ func c03Paths(c *c03Case, logs string, upto int) map[int]string {
 			old := p[s.f]
 			p[s.f] = old + fmt.Sprintf(".r%d", s.g)
 			p[s.g] = old
+		case "RO":
+			old := p[s.f]
+			p[s.f] = c03AwayPath(logs, s.f)
+			p[s.g] = old
+		case "O", "D":
+			p[s.f] = c03AwayPath(logs, s.f)
 		}
 	}
 	return p
 }
+
+// where a file that left the watched directory lives (a sibling directory)
+func c03AwayPath(logs string, f int) string {
+	return filepath.Join(filepath.Dir(logs), "away", fmt.Sprintf("f%d", f))
+}
+
+func c03Watched(logs, path string) bool { return strings.HasPrefix(path, logs+string(os.PathSeparator)) }
 
 func c03Inode(path string) (uint64, bool) {
 	st, err := os.Stat(path)
@@ -195,6 +212,31 @@ func c03FileOp(s c03Step, paths map[int]string, logs string) error {
 		return f.Close()
 	case "T":
 		return os.Truncate(paths[s.f], 0)
+	case "RO", "O", "D":
+		old := paths[s.f]
+		nw := c03AwayPath(logs, s.f)
+		if err := os.MkdirAll(filepath.Dir(nw), 0o755); err != nil {
+			return err
+		}
+		if s.op == "D" {
+			if err := os.Link(old, nw); err != nil {
+				return err
+			}
+			if err := os.Remove(old); err != nil {
+				return err
+			}
+		} else if err := os.Rename(old, nw); err != nil {
+			return err
+		}
+		paths[s.f] = nw
+		if s.op == "RO" {
+			paths[s.g] = old
+			f, err := os.OpenFile(old, os.O_CREATE|os.O_EXCL|os.O_WRONLY, 0o644)
+			if err != nil {
+				return err
+			}
+			return f.Close()
+		}
 	}
 	return nil
 }
@@ -209,6 +251,10 @@ func c03FileRec(s c03Step) string {
 		return fmt.Sprintf("ren %d %d", s.f, s.g)
 	case "T":
 		return fmt.Sprintf("trunc %d", s.f)
+	case "RO":
+		return fmt.Sprintf("away %d ren %d %d", s.f, s.f, s.g)
+	case "O", "D":
+		return fmt.Sprintf("away %d", s.f)
 	}
 	return ""
 }
@@ -289,6 +335,7 @@ type c03View struct {
 	acked    map[int]bool
 	outLast  map[int]bool
 	saved    map[int]map[string]int64 // at the last crash
+	snaps    []map[int]map[string]int64 // at every crash
 	hadCrash bool
 }
 
@@ -306,6 +353,10 @@ func (v *c03View) apply(rec string) {
 		v.content[atoi(t[1])] = append(v.content[atoi(t[1])], d...)
 	case "ren":
 		v.content[atoi(t[2])] = []byte{}
+	case "away":
+		if len(t) >= 5 && t[2] == "ren" {
+			v.content[atoi(t[4])] = []byte{}
+		}
 	case "trunc":
 		v.content[atoi(t[1])] = []byte{}
 	case "ack":
@@ -315,6 +366,7 @@ func (v *c03View) apply(rec string) {
 	case "crash":
 		v.outLast = map[int]bool{}
 		v.saved = map[int]map[string]int64{}
+		v.snaps = append(v.snaps, v.saved)
 		v.hadCrash = true
 	case "saved":
 		m := map[string]int64{}
@@ -360,7 +412,7 @@ func execC03(t *hx.Toks) string {
 	for pos < len(c.steps) {
 		s := c.steps[pos]
 		switch s.op {
-		case "C", "A", "R", "T":
+		case "C", "A", "R", "T", "RO", "O", "D":
 			if err := c03FileOp(s, paths, logs); err != nil {
 				return "bad-case"
 			}
@@ -391,6 +443,14 @@ func execC03(t *hx.Toks) string {
 					old := paths[f]
 					paths[f] = old + fmt.Sprintf(".r%d", g)
 					paths[g] = old
+				case "away":
+					f, _ := strconv.Atoi(tk[1])
+					old := paths[f]
+					paths[f] = c03AwayPath(logs, f)
+					if len(tk) >= 5 && tk[2] == "ren" {
+						g, _ := strconv.Atoi(tk[4])
+						paths[g] = old
+					}
 				}
 			}
 			// a parent-side kill may fall between logging a file op and doing it: drop an undone last op
@@ -460,14 +520,14 @@ func execC03(t *hx.Toks) string {
 			nfile := 0
 			for _, l := range lines {
 				switch strings.Fields(l)[0] {
-				case "new", "app", "ren", "trunc":
+				case "new", "app", "ren", "trunc", "away":
 					nfile++
 				}
 			}
 			for j := pos + 1; j < segEnd; j++ {
 				sj := c.steps[j]
 				switch sj.op {
-				case "C", "A", "R", "T":
+				case "C", "A", "R", "T", "RO", "O", "D":
 					if nfile > 0 {
 						nfile--
 						continue
@@ -535,7 +595,11 @@ func execC03(t *hx.Toks) string {
 				continue
 			}
 			cls := 1
-			if sv, has := view.saved[f]; has && view.hadCrash {
+			for _, snap := range view.snaps {
+				sv, has := snap[f]
+				if !has {
+					continue
+				}
 				_, listed := sv[l.stream]
 				min := int64(-1)
 				for _, o := range sv {
@@ -668,6 +732,7 @@ type c03Child struct {
 	octl    pipeline.OutputPluginController
 	pending []*c03Pending
 	srcToF  map[uint64]int
+	goneSent map[int]bool
 	passed  map[string]int // per (file, stream), guarded by mu
 	outs    map[string]int
 }
@@ -836,9 +901,20 @@ func (h *c03Child) waitIdle(final bool) bool {
 			}
 		}
 		okc := 0
+		hasJob := map[int]bool{}
 		for _, st := range file.VerifJobStates(h.fp) {
 			f, known := inoToF[st.Inode]
+			if known {
+				hasJob[f] = true
+			}
 			if known && st.IsDone && st.CurOffset == sizes[f] {
+				okc++
+			}
+		}
+		// a file that left the watched directory may have lost its job (maintenance releases it
+		// once it has been read to its end): that is idle too
+		for f := range sizes {
+			if !hasJob[f] && !c03Watched(h.logs, h.paths[f]) {
 				okc++
 			}
 		}
@@ -862,7 +938,12 @@ func (h *c03Child) waitIdle(final bool) bool {
 			h.mu.Unlock()
 			if settled && (all || !final) {
 				for _, f := range sortedKeys(sizes) {
-					h.rec(false, nil, "eof %d %d", f, sizes[f])
+					if hasJob[f] {
+						h.rec(false, nil, "eof %d %d", f, sizes[f])
+					} else if !h.goneSent[f] {
+						h.goneSent[f] = true
+						h.rec(false, nil, "gone %d", f)
+					}
 				}
 				return true
 			}
@@ -952,7 +1033,7 @@ func c03ChildMain(dir string, run int) {
 		start = len(c.steps) // recovery run after a death of the last scripted run: no steps, run until idle
 	}
 	logs := filepath.Join(dir, "logs")
-	h := &c03Child{c: c, dir: dir, logs: logs, run: run, paths: c03Paths(c, logs, start), srcToF: map[uint64]int{}, passed: map[string]int{}, outs: map[string]int{}}
+	h := &c03Child{c: c, dir: dir, logs: logs, run: run, paths: c03Paths(c, logs, start), srcToF: map[uint64]int{}, passed: map[string]int{}, outs: map[string]int{}, goneSent: map[int]bool{}}
 	h.trace, err = os.OpenFile(filepath.Join(dir, fmt.Sprintf("trace%d.log", run)), os.O_CREATE|os.O_WRONLY|os.O_APPEND, 0o644)
 	if err != nil {
 		os.Exit(4)
@@ -1022,7 +1103,9 @@ func c03ChildMain(dir string, run int) {
 	}
 	sort.Ints(fs)
 	for _, f := range fs {
-		h.rec(false, nil, "disc %d", f)
+		if c03Watched(logs, h.paths[f]) {
+			h.rec(false, nil, "disc %d", f)
+		}
 	}
 	p.Start()
 	h.rec(false, nil, "scan")
@@ -1038,7 +1121,7 @@ func c03ChildMain(dir string, run int) {
 			h.die()
 		}
 		switch s.op {
-		case "C", "A", "R", "T":
+		case "C", "A", "R", "T", "RO", "O", "D":
 			s := s
 			h.rec(false, func() {
 				if err := c03FileOp(s, h.paths, logs); err != nil {
@@ -1048,7 +1131,7 @@ func c03ChildMain(dir string, run int) {
 			if s.op == "C" {
 				h.rec(false, nil, "disc %d", s.f)
 			}
-			if s.op == "R" {
+			if s.op == "R" || s.op == "RO" {
 				h.rec(false, nil, "disc %d", s.g)
 			}
 		case "W":
@@ -1066,6 +1149,19 @@ func c03ChildMain(dir string, run int) {
 					break
 				}
 				h.ack(el[0])
+			}
+		case "KQ":
+			for {
+				if !h.waitIdle(true) {
+					os.Exit(3)
+				}
+				el := h.eligible()
+				if len(el) == 0 {
+					break
+				}
+				for _, p := range el {
+					h.ack(p)
+				}
 			}
 		case "S":
 			if !h.waitSaved(offsetsFile) {
